@@ -9,6 +9,11 @@
    Hypothesis wf_progs: the pushed items are distinct nodes, none NULL or the
    fifo's stub ("the work queue owns item after pushing").
    Guard: in_count/out_count do not reach 2^63 (Z in the model).
+   Programs are lists of WorkQueue.op: Push item, or PushFF item = a push after
+   which the caller, if it was told START_WORKING, first adds FFAMT = 2^32 - 3
+   to both counters in one step (pc GFfwd; the state FFAMT rounds of "push one
+   more, get one" by the fresh worker reach); all statements cover programs
+   with any placement of such pushes, so counters far beyond 2^32 included.
 
    Ghost logs of the instrumented machine (WorkQueueProofs.ist; erasure lemma
    lstep_erase): alog = items in the order of the add_and_fetch on in_count,
@@ -87,7 +92,7 @@ Qed.
 Print Assumptions wq_mpsc_single_consumer.
 
 (* ---- non-vacuity: the hypotheses are met by concrete reachable states ---- *)
-Definition ex_progs := [[2; 4]; [3]].
+Definition ex_progs := [[Push 2; Push 4]; [Push 3]].
 Definition ex_state sch := fst (run_sched M (init ex_progs) sch).
 Definition ex_ist sch := irun (iinit ex_progs) sch.
 
@@ -97,6 +102,47 @@ Proof.
   - repeat constructor; cbn; intuition discriminate.
   - intros a H. intuition lia.
 Qed.
+
+(* ---- fast-forward: counters beyond 2^32 ---- *)
+Definition ff_progs := [[PushFF 2]; [Push 3; Push 4; Push 5]; [PushFF 6]].
+
+Example ff_wf : wf_progs ff_progs.
+Proof.
+  apply wf_of_nodup_concat; cbn.
+  - repeat constructor; cbn; intuition discriminate.
+  - intros a H. intuition lia.
+Qed.
+
+(* thread 0's marked push is told START_WORKING (event 0 1 909 1), the
+   fast-forward happens (event 0 2 919 FFAMT), the worker reads the head;
+   then thread 1 pushes three items and thread 2 one (marked, but QUEUED: no
+   fast-forward).  Thread 1's third add_and_fetch sees 2^32 and makes
+   in_count = 2^32 + 1 (event 1 2 55 4294967296); that push is told QUEUED
+   (event 1 3 909 0), thread 0 is still the only designated worker, and
+   in_count - out_count = 5 items announced, none handed out yet. *)
+Example ex_ffwd_reachable :
+  let r := run_sched M (init ff_progs) [0;0;0;0; 0; 0; 1;1;1;1; 1;1;1;1; 1;1;1;1; 2;2;2;2] in
+  let s := fst r in
+  reachable M (init ff_progs) s /\
+  inc s = (2 ^ 32 + 2)%Z /\ outc s = FFAMT /\ (inc s - outc s = 5)%Z /\
+  flag (thr s 0) = true /\ pc (thr s 0) = GNext /\
+  flag (thr s 1) = false /\ pc (thr s 1) = Fin /\ flag (thr s 2) = false /\ pc (thr s 2) = Fin /\
+  snd r = [0;2;55;0; 0;103;19;0; 0;1;43;1; 0;101;19;2; 0;1;909;1;
+           0;2;919;4294967293; 0;0;9;1;
+           1;2;55;4294967294; 1;105;19;0; 1;1;43;2; 1;103;19;3; 1;1;909;0;
+           1;2;55;4294967295; 1;107;19;0; 1;1;43;3; 1;105;19;4; 1;2;909;0;
+           1;2;55;4294967296; 1;109;19;0; 1;1;43;4; 1;107;19;5; 1;3;909;0;
+           2;2;55;4294967297; 2;111;19;0; 2;1;43;5; 2;109;19;6; 2;1;909;0]%Z.
+Proof. split; [apply run_sched_reachable; constructor | vm_compute; repeat split; reflexivity]. Qed.
+
+(* ... and the whole run completes: all five items handed out exactly once,
+   in exchange order, the worker told EMPTY with both counters rebased to 0 *)
+Example ex_ffwd_drains :
+  let x := irun (iinit ff_progs)
+             ([0;0;0;0; 0; 0; 1;1;1;1; 1;1;1;1; 1;1;1;1; 2;2;2;2] ++ repeat 0 60) in
+  ireach ff_progs x /\ alog x = [2;3;4;5;6] /\ hlog x = [2;3;4;5;6] /\ wk x = None /\
+  inc (base x) = 0%Z /\ outc (base x) = 0%Z /\ pc (thr (base x) 0) = Fin.
+Proof. split; [apply ireach_irun; constructor | vm_compute; repeat split; reflexivity]. Qed.
 
 (* thread 0 has pushed item 2, was told START_WORKING and is inside get_work,
    while thread 1 is in the middle of its push *)
